@@ -26,6 +26,10 @@ G3same == [a |-> [path |-> "bcast", kind |-> "normal", ctl |-> "S1"], b |-> [pat
 \* C08 on the TCP path: calls that queue for the shared fixed port and then talk TCP (each to its own controller endpoint)
 G3tcp == [a |-> [path |-> "tcp", kind |-> "normal", ctl |-> "S1"], b |-> [path |-> "tcp", kind |-> "normal", ctl |-> "S2"],
           c |-> [path |-> "bcast", kind |-> "normal", ctl |-> "S3"]]
+\* two connected-UDP calls to ONE controller (and a broadcast-path call to it) queueing for the shared fixed port: with both
+\* sockets open at once their 4-tuples would be identical
+G3udp2 == [a |-> [path |-> "udp", kind |-> "normal", ctl |-> "S1"], b |-> [path |-> "udp", kind |-> "normal", ctl |-> "S1"],
+           c |-> [path |-> "bcast", kind |-> "normal", ctl |-> "S1"]]
 G4same == [a |-> [path |-> "bcast", kind |-> "normal", ctl |-> "S1"], b |-> [path |-> "bcast", kind |-> "normal", ctl |-> "S1"],
            c |-> [path |-> "udp", kind |-> "normal", ctl |-> "S1"], d |-> [path |-> "bcast", kind |-> "normal", ctl |-> "S2"]]
 ============================================================================
